@@ -206,3 +206,87 @@ Proof.
   rewrite !sum_bytes_app in H. cbn [sum_bytes] in H.
   apply bz_inj. pose proof (bz_range x). pose proof (bz_range y). lia.
 Qed.
+
+(* ---- the per-try decision of VeCommandGet ---- *)
+
+Lemma response_error_none flag : 0 <= flag < 256 -> response_error flag = None -> flag = 0.
+Proof.
+  unfold response_error. intros H.
+  destruct (flag =? 0) eqn:E0; [lia|].
+  destruct (flag =? 1); [discriminate|]. destruct (flag =? 2); [discriminate|].
+  destruct (flag =? 4); discriminate.
+Qed.
+
+Lemma addr_bytes addr lo hi : 0 <= addr < 65536 -> addr = bz lo + 256 * bz hi ->
+  lo = zb addr /\ hi = zb (addr / 256).
+Proof.
+  intros Ha E. pose proof (bz_range lo). pose proof (bz_range hi).
+  split; apply bz_inj; rewrite bz_zb; lia.
+Qed.
+
+(* C01 at the line level: a value is only ever extracted from a valid Get response for the
+   requested address with flag 0, and it is exactly the rest of the payload *)
+Theorem get_value_sound addr body raw v :
+  0 <= addr < 65536 ->
+  parse_response 7 body = Ok raw -> classify_get addr raw = GValue v ->
+  valid_get_response addr v body.
+Proof.
+  intros Ha Hp Hc. apply parse_response_sound in Hp. change (response_for_command 7) with 7 in Hp.
+  unfold classify_get in Hc. destruct raw as [|lo [|hi [|flag v']]]; try discriminate.
+  destruct (addr =? bz lo + 256 * bz hi) eqn:Ea; cbn [negb] in Hc; [|discriminate].
+  destruct (response_error (bz flag)) eqn:Ef; [discriminate|]. injection Hc as <-.
+  apply response_error_none in Ef; [|apply bz_range].
+  apply Z.eqb_eq in Ea. destruct (addr_bytes addr lo hi Ha Ea) as [-> ->].
+  assert (flag = x00) as -> by (apply bz_inj; rewrite Ef; reflexivity).
+  exact Hp.
+Qed.
+
+Theorem get_value_complete addr body v :
+  0 <= addr < 65536 ->
+  valid_get_response addr v body ->
+  exists raw, parse_response 7 body = Ok raw /\ classify_get addr raw = GValue v.
+Proof.
+  intros Ha Hv. eexists. split.
+  - apply (parse_response_complete 7); [exact Hv|cbn [length]; lia].
+  - unfold classify_get. rewrite !bz_zb.
+    replace (addr =? addr mod 256 + 256 * ((addr / 256) mod 256)) with true by lia.
+    cbn [negb]. reflexivity.
+Qed.
+
+(* C05 at the line level *)
+Theorem get_device_error addr flag trailing :
+  0 <= addr < 65536 -> In flag [1; 2; 4] ->
+  classify_get addr (zb addr :: zb (addr / 256) :: zb flag :: trailing) =
+  GFail (if flag =? 1 then EUnknownId else if flag =? 2 then ENotSupported else EParameter).
+Proof.
+  intros Ha Hf. unfold classify_get. rewrite !bz_zb.
+  replace (addr =? addr mod 256 + 256 * ((addr / 256) mod 256)) with true by lia.
+  cbn [negb In] in *. destruct Hf as [<-|[<-|[<-|[]]]]; reflexivity.
+Qed.
+
+(* a foreign address, a short payload or a non-zero flag never yield a value *)
+Theorem get_no_value_foreign addr lo hi flag v :
+  addr <> bz lo + 256 * bz hi -> classify_get addr (lo :: hi :: flag :: v) = GRetry.
+Proof. intros H. unfold classify_get. replace (addr =? _) with false by lia. reflexivity. Qed.
+
+Theorem get_no_value_flag addr lo hi flag v w :
+  bz flag <> 0 -> classify_get addr (lo :: hi :: flag :: v) <> GValue w.
+Proof.
+  intros H. unfold classify_get. destruct (negb _); [discriminate|].
+  unfold response_error. replace (bz flag =? 0) with false by lia.
+  destruct (bz flag =? 1); [discriminate|]. destruct (bz flag =? 2); [discriminate|].
+  destruct (bz flag =? 4); discriminate.
+Qed.
+
+Lemma parse_response_ok_length cmd rd v : parse_response cmd rd = Ok v -> (2 <= length v)%nat.
+Proof.
+  unfold parse_response. destruct (length rd <? 7)%nat eqn:El; [discriminate|].
+  destruct rd as [|c hexdata]; [discriminate|].
+  destruct (negb _); [discriminate|]. destruct (Nat.odd _); [discriminate|].
+  destruct (hex_decode hexdata) as [bin|] eqn:Eh; [|discriminate].
+  destruct (split_last bin) as [[vals chk]|] eqn:Es; [|discriminate].
+  destruct (beqb _ _); [|discriminate]. intros H. injection H as <-.
+  apply split_last_spec in Es. subst bin.
+  apply hex_decode_sound, hex_decodes_length in Eh. rewrite app_length in Eh. cbn [length] in *.
+  destruct (Nat.ltb_spec (S (length hexdata)) 7); [discriminate|]. lia.
+Qed.
